@@ -993,11 +993,17 @@ def check_rejected(ex, info):
                                              and len({k for k, _ in op["items"]}) == len(op["items"])):
         # (with a repeated key an argument may have been placed and replaced again by a later item)
         now = ex.children(target)
+        now_ids = {id(c) for c in now}
         rb, ra = rows(before), rows(after)
         for v in live:
             if any(c is v for c in now):
                 continue
             kb = [k for k in rb if k[1] == id(v)]
+            # an argument the same call DID place may be an ancestor of this one (aliasing: a pooled container that is
+            # still listed elsewhere): its re-parenting legitimately changes the chain above v — only v's own
+            # position below that ancestor is the failing call's business
+            if any(x in now_ids for k in kb for x in rb[k][2]):
+                continue
             if any(k in ra and ra[k][2:] != rb[k][2:] for k in kb):
                 fails.append({"clause": "unplaced-argument-untouched",
                               "expected": "an Element argument the failing call did not place keeps its parent chain",
